@@ -285,7 +285,16 @@ pub fn format_blame_metadata(
                             Err(_) => blame.time.to_string(),
                         }
                     }
-                    None => chrono_humanize::HumanTime::from(blame.time).to_string(),
+                    None => {
+                        // Relative to one instant for the whole run: with the clock read anew for
+                        // every line, lines of one commit that arrive slowly would get different
+                        // texts ("now", "11 seconds ago") and so be taken for different commits.
+                        lazy_static! {
+                            static ref NOW: DateTime<chrono::Utc> = chrono::Utc::now();
+                        }
+                        let age = blame.time.with_timezone(&chrono::Utc) - *NOW;
+                        chrono_humanize::HumanTime::from(age).to_string()
+                    }
                 }))
             }
             Some(Placeholder::Str("author")) => Some(Cow::from(blame.author)),
